@@ -88,7 +88,7 @@ def run_case(case):
     import websocket
 
     obs = Obs()
-    sched = simkit.Sched(choices=case.get("choices", []), preempt=case.get("preempt"), horizon=400.0, repo=REPO, max_steps=800000)
+    sched = simkit.Sched(choices=case.get("choices", []), preempt=case.get("preempt"), preempt_at=case.get("preempt_at"), horizon=400.0, repo=REPO, max_steps=800000)
     net = simkit.SimNet(sched)
     runs = case["runs"]
     attempts, expect = [], []
@@ -252,9 +252,9 @@ def _is_trigger(end, name, args):
 def _cls(obs, case, sched):
     runs = case["runs"]
     kinds = [r["ending"]["kind"] + (":" + r["ending"]["in"] if "in" in r["ending"] else "") for r in runs]
-    obs.cls = tuple(f"end:{k}" for k in kinds) + (f"runs:{len(runs)}", f"ping:{int(bool(case.get('ping')))}", f"preempted:{min(len(sched.preempted_in), 2)}",
+    obs.cls = tuple(f"end:{k}" for k in kinds) + (f"runs:{len(runs)}", f"ping:{int(bool(case.get('ping')))}", f"preempted:{min(len(sched.preempted_in), 2)}", f"preempted-in-close:{int(any(':close:' in p for p in sched.preempted_in))}",
                                                 f"traffic:{min(sum(len(r.get('traffic', [])) for r in runs), 4)}", f"reconnected:{int(any(r.get('lost_first') for r in runs))}", f"tls:{int(bool(case.get('secure')))}")
-    obs.nt = repr((runs, case.get("ping"), case.get("choices"), sorted((case.get("preempt") or {}).items()), case.get("secure")))
+    obs.nt = repr((runs, case.get("ping"), case.get("choices"), sorted((case.get("preempt") or {}).items()), case.get("secure"), sorted((case.get("preempt_at") or {}).items())))
     return obs
 
 
@@ -330,6 +330,10 @@ def cases(draw):
         c["choices"] = draw(st.lists(st.integers(0, 2), max_size=40))
         if draw(st.booleans()):
             c["preempt"] = {str(draw(st.integers(1, 2600))): draw(st.integers(1, 2)) for _ in range(draw(st.integers(1, 2)))}
+        if draw(st.booleans()):
+            # preemption at a place: the k-th line executed inside one of the functions where the threads meet
+            c["preempt_at"] = {site: {str(draw(st.integers(1, 12 if site.endswith(":close") else 60))): draw(st.integers(1, 2))}
+                               for site in draw(st.lists(st.sampled_from(RACE_SITES), min_size=1, max_size=2, unique=True))}
     return c
 
 
@@ -382,6 +386,30 @@ def close_code_cases(shard, of):
             yield {"runs": [{"traffic": [], "ending": {"kind": "server-close", "code": code, "reason": reason, "gap": 0.5}}], "secure": bool(code & 1)}
 
 
+RACE_SITES = ["_app.py:close", "_app.py:setSock", "_app.py:teardown", "_app.py:read", "_core.py:close", "_core.py:shutdown", "_core.py:connect"]
+
+
+def close_race_cases(shard, of):
+    """close() from another thread the moment the run has begun: every prefix of scheduling decisions x every line of
+    WebSocketApp.close() as the place where the closing thread is preempted x who runs next x transport x keepalive."""
+    import itertools
+
+    i = 0
+    for ch in itertools.product((0, 1, 2), repeat=4):
+        for k in range(1, 7):
+            for nxt in (1, 2):
+                for secure in (False, True):
+                    for ping in (None, [12, 3]):
+                        i += 1
+                        if i % of != shard:
+                            continue
+                        c = {"runs": [{"traffic": [], "ending": {"kind": "thread-close", "at": 0.0, "gap": 2.0, "srv_close": ["reply", 0.0]}}],
+                             "choices": list(ch) + [0], "preempt_at": {"_app.py:close": {str(k): nxt}}, "secure": secure}
+                        if ping:
+                            c["ping"] = ping
+                        yield c
+
+
 def _count_steps(case):
     holder = {}
     orig = simkit.Sched.__init__
@@ -403,6 +431,7 @@ def jobs(tier, seed):
     out = [{"name": f"hyp-{i}", "kind": "hyp", "seed": seed * 1000 + i, "n": n // shards} for i in range(shards)]
     out.append({"name": "stream-after-close", "kind": "stream"})
     out += [{"name": f"close-codes-{k}", "kind": "codes", "shard": k, "of": 4} for k in range(4)]
+    out += [{"name": f"close-race-{k}", "kind": "race", "shard": k, "of": 4} for k in range(4)]
     of = 4 if tier == "quick" else 16
     for fi in range(len(FIXED)):
         for sh in range(of):
@@ -417,6 +446,10 @@ def run_job(job, coll):
         for c in close_code_cases(job["shard"], job["of"]):
             coll.check(c, run_case)
         coll.exhaustive["every close status that may appear on the wire (1000-1003, 1007-1014, 3000-4999) as the server's ending"] = True
+    elif job["kind"] == "race":
+        for c in close_race_cases(job["shard"], job["of"]):
+            coll.check(c, run_case)
+        coll.exhaustive["close() from a second thread at the start of the run: 81 decision prefixes x 6 preemption lines in close() x 2 successors x transport x keepalive"] = True
     elif job["kind"] == "stream":
         for c in stream_cases():
             coll.check(c, run_case)
